@@ -17,7 +17,7 @@ Events
       that request's publish() call is still in progress (async: while it is
       awaited; sync: before it returns), i.e. a response overtaking the return
       of publish().
-  msg:<topic>:<payload>:<cd>:<code>
+  msg:<topic>:<payload>:<cd>:<code>      (<payload> = X<hex>: raw bytes, not necessarily UTF-8)
       topic  : R (client's response topic) | code points
       payload: code points (UTF-8 encoded before delivery)
       cd     : - (no CorrelationData) | r<k> | lowercase hex
@@ -166,7 +166,7 @@ def build_message(response_topic, args):
     """-> (topic str, payload bytes, Properties|None)"""
     t_tok, p_tok, cd_tok, code_tok = args
     topic = response_topic if t_tok == "R" else dec(t_tok)
-    payload = dec(p_tok).encode("utf-8")
+    payload = bytes.fromhex(p_tok[1:]) if p_tok.startswith("X") else dec(p_tok).encode("utf-8")
     if cd_tok == "-" and code_tok == "-":
         return topic, payload, None
     props = Properties(PacketTypes.PUBLISH)
